@@ -6,7 +6,7 @@ import numpy as np
 
 from openmdao.core.constants import INT_DTYPE
 from openmdao.vectors.transfer import Transfer
-from openmdao.utils.array_utils import _global2local_offsets
+from openmdao.utils.array_utils import _global2local_offsets, bincount_cs
 
 
 def _fill(arr, indices_iter):
@@ -318,5 +318,5 @@ class DefaultTransfer(Transfer):
             in_vec.set_val(out_vec.asarray()[self._out_inds.flat], self._in_inds)
 
         else:  # rev
-            out_vec.iadd(np.bincount(self._out_inds, in_vec._get_data()[self._in_inds],
+            out_vec.iadd(bincount_cs(self._out_inds, in_vec._get_data()[self._in_inds],
                                      minlength=out_vec._data.size))
